@@ -16,15 +16,15 @@ D_NOTE = ("Trusted: Lean kernel; the transcription of the templates into Gen.run
 CLAIMED = {
  # id: (technique, level text, design ref, note)
  "C01": ("Lean 4 proof (invariant induction over the scheduler LTS) + trace-replay correspondence", "Theorems over all DAGs/N/modes/interleavings of the model; correspondence and hook-free start/end-stamp oracle on the real scheduler for every explored scenario.", "3 C01", S_NOTE),
- "C03": ("Lean 4 proof (worker-slot invariant) + trace-replay correspondence", "At most N running bodies in every reachable model state; in-flight counter oracle and wiring checks on the real scheduler.", "3 C03", S_NOTE),
+ "C03": ("Lean 4 proof (worker-slot invariant; work conservation by an explicit internal schedule) + trace-replay correspondence", "At most N running bodies in every reachable model state; a ready job gets started by loop/worker steps alone whenever a worker is free (C03_work_conserving); in-flight counter oracle and wiring checks on the real scheduler.", "3 C03", S_NOTE),
  "C05": ("Lean 4 proof (progress/measure over the scheduler LTS) + trace-replay correspondence", "Model-level progress; watchdog oracle with double-dump confirmation on the real scheduler.", "3 C05", S_NOTE),
  "C06": ("Lean 4 proof (gate invariant ongoing<=N) + trace-replay correspondence", "Outstanding results never exceed cap(donec) in the model, so no worker blocks after the loop left; goroutine-quiescence oracle on the real scheduler.", "3 C06", S_NOTE),
  "C07": ("Lean 4 proof (fail-fast error accounting) + trace-replay correspondence", "nil/err soundness on the model; error-identity and invocation oracles on the real scheduler.", "3 C07", S_NOTE),
  "C08": ("Lean 4 proof (ContinueOnError accounting) + trace-replay correspondence", "error multiset/no sentinel on the model; multierr decomposition oracle on the real scheduler.", "3 C08", S_NOTE),
- "C09": ("Lean 4 proof (no start after cancel) + trace-replay correspondence", "no started event after cancelled in any model log; structural cancellation oracles and receive-after-cancel trace rule on the real scheduler.", "3 C09", S_NOTE),
+ "C09": ("Lean 4 proof (no start after cancel; prompt return by an explicit workerEnd-free schedule) + trace-replay correspondence", "no started event after cancelled in any model log; from every cancelled state the caller finishes its Enqueues and returns without any running body ending (C09_prompt); structural cancellation oracles and receive-after-cancel trace rule on the real scheduler.", "3 C09", S_NOTE),
  "C02": ("Lean 4 proof (topological enqueue order, order-independence of the denotation, body semantics) + differential oracle on generated programs", "Enqueue order respects dependencies for every acyclic flow; the denoted values are invariant under listing order and concurrency; every generated program of the run is executed under all/sampled outcome assignments, 64-way concurrently, and compared with the model's reference execution.", "3 C02", D_NOTE),
  "C10": ("Lean 4 proof (job structure of generated Parallel code + scheduler theorems) + differential oracle on generated programs", "Element jobs are exactly (i, s[i]) resp. (k, m[k]) with own copies, End job depends on exactly its elements (so by C01 runs after all of them, never after a failure); sizes nil,0,1,2,17,300 executed on real generated code.", "3 C10", D_NOTE),
- "C14": ("Lean 4 proof (acceptance by the validation model implies unique providers, consumed outputs, acyclicity, ordered jobs) + differential on accepted and mutated generated programs", "Partial: soundness of acceptance proved for every program of the model (no bound on tasks); the diagnostic category reported by the real cff for every well-formed and every mutated program (missing provider, duplicate provider, cycle, unused output, fallback without error, bad Invoke, non-assignable element, instrument without emitter, ContinueOnError with End) is compared with the model's validate; accepted programs are additionally compiled and type-checked.", "3 C14", D_NOTE),
+ "C14": ("Lean 4 proof (validation model accepts iff declaratively well-formed: BFS and memoised DFS sound and complete) + differential on accepted, mutated and unsupported-signature generated programs", "validateFlow p = [] <-> WellFormed p for every program of the model (no bound on tasks); the verdict and diagnostic category of the real cff for every well-formed and every mutated program (missing provider, duplicate provider, cycle at any distance/through predicates/unreachable, unused param/output, fallback without error, bad Invoke, unsupported predicate signature, FallbackWith arity, non-assignable element, instrument without emitter, ContinueOnError with End) is compared with the model's validate; accepted programs are additionally compiled and type-checked.", "3 C14", D_NOTE),
  "C15": ("Lean 4 proof (prologue is a sorted permutation) + differential oracle (every argument slot wrapped in a logging call)", "Each hoisted expression evaluated once in source order in the model; evaluation order, goroutine and before-first-task observed on real generated code for every slot; err capture is a recorded finding.", "3 C15", D_NOTE),
  "C20": ("Lean 4 proof (source-map adds only comments) + comment-stripped comparison of base and source-map output; differential execution for modifier mode", "Model-level equality of code tokens; byte/token comparison of both modes for every generated program and the repository's corpus.", "3 C20", D_NOTE),
  "C04": ("Lean 4 proof (recover structure of task bodies; scheduler error accounting) + differential oracle on generated programs", "No panic escapes a generated body and the job error is the PanicError of the panicking function, for every task shape/scenario/store of the model; every function kind x panic value class executed on real generated code with crash isolation.", "3 C04", D_NOTE),
